@@ -45,7 +45,7 @@ def batch(dirs, jobs=None):
         if not chunk:
             return
         p = subprocess.run([HOST_BIN, "batch"], input="\n".join(chunk) + "\n", capture_output=True, text=True, env=ENV)
-        lines = [l for l in p.stdout.splitlines() if l.strip()]
+        lines = [l for l in p.stdout.split("\n") if l.strip()]
         got = {}
         for l in lines:
             try:
